@@ -319,25 +319,22 @@ namespace Pistache::Rest
         }
         else
         { // current leaf requested, or empty final optional
-            if (!optional_.empty())
+            if (route_ != nullptr)
             {
-                // in case of more than one optional at this point, as it is an
-                // ambiguity, it is resolved by using the first optional
-                auto optional = optional_.begin();
-                // std::string opt {optional->first.data(), optional->first.length()};
-                return optional->second->findRoute(path, params, splats);
-            }
-            else if (route_ == nullptr)
-            {
-                // if we are here but route is null, we reached this point
-                // trying to parse an optional, that was missing
-                return std::make_tuple(nullptr, std::vector<TypedParam>(),
-                                       std::vector<TypedParam>());
-            }
-            else
-            {
+                // the route registered for exactly this path
                 return std::make_tuple(route_, std::move(params), std::move(splats));
             }
+
+            // otherwise a route whose remaining segments are all optional and absent
+            for (const auto& optional : optional_)
+            {
+                auto result = optional.second->findRoute(path, params, splats);
+                if (std::get<0>(result) != nullptr)
+                    return result;
+            }
+
+            return std::make_tuple(nullptr, std::vector<TypedParam>(),
+                                   std::vector<TypedParam>());
         }
     }
 
